@@ -3,6 +3,7 @@ package sched
 import (
 	"fmt"
 	"math/rand"
+	"os"
 	"testing"
 	"testing/synctest"
 
@@ -301,7 +302,11 @@ func (sc *scenario) settle() {
 func (sc *scenario) drain() {
 	w := sc.w
 	if w.Panicked() {
-		return
+		// The real code panicked: the trace (which ends with the panic
+		// event) is the result. Other goroutines may be stuck behind a
+		// lock the panicking one still holds, so the process ends here.
+		w.tr.Close()
+		os.Exit(0)
 	}
 	w.tr.Emit(common.Ev{"ev": "phase", "phase": "drain"})
 	// 1. let workers complete what they believe they are executing
